@@ -167,6 +167,13 @@ def nndvi_history(rng, nb, equal_sizes=False, some_even=False):
         if rng.random() < 0.05 and b > 0:
             script.append(("reset",))
         n = n0 if equal_sizes else rng.randint(6, 28)
+        if rng.random() < 0.12 and not equal_sizes:
+            # the reference fed again, or a sub-sample of it (a replayed file, categorical data whose distinct rows are all known already):
+            # every random re-assignment yields the same distance, the fitted threshold is undefined, and nothing may be reported
+            ref = [r for s_ in script if s_[0] == "set_reference" for r in [s_[1]]][-1]
+            rows = ref if rng.random() < 0.4 else [rng.choice(ref) for _ in range(rng.randint(4, len(ref)))]
+            script.append(("update", [list(r) for r in rows]))
+            continue
         script.append(("update", lattice(rng, n, d, loc, spread, some_even and rng.random() < 0.4)))
     return script
 
